@@ -243,6 +243,11 @@ def call_builtin(it, name, args, kwargs):
         if c is not None:
             return c
         raise Unsupported('iter of symbolic')
+    if name == 'next' and len(args) == 1 and isinstance(args[0], list):
+        # iter() is modelled by the concrete list of items: next() on a fresh iterator is its first element
+        if not args[0]:
+            raise PyRaise('StopIteration')
+        return args[0][0]
     if name == 'callable':
         return isinstance(args[0], (Closure, BoundMethod, I.FuncRef))
     if name == 'slice':
